@@ -23,12 +23,12 @@ type wwCase struct {
 	Syntax int        `json:"syntax"`
 	Gen    int        `json:"gen"`
 	Root   string     `json:"root"`
-	M      *model.Msg `json:"m"`      // surrounding valid content
-	Num    int32      `json:"num"`    // number of a declared field (or registered extension)
-	Typ    int        `json:"typ"`    // a wire type that field never uses
-	Rec    []byte     `json:"rec"`    // the whole record (tag + payload), well-formed wire
-	After  bool       `json:"after"`  // record placed after the valid content (else before)
-	Shape  string     `json:"shape"`  // shape of the field (for the class report)
+	M      *model.Msg `json:"m"`     // surrounding valid content
+	Num    int32      `json:"num"`   // number of a declared field (or registered extension)
+	Typ    int        `json:"typ"`   // a wire type that field never uses
+	Rec    []byte     `json:"rec"`   // the whole record (tag + payload), well-formed wire
+	After  bool       `json:"after"` // record placed after the valid content (else before)
+	Shape  string     `json:"shape"` // shape of the field (for the class report)
 }
 
 // legalTypes lists the wire types records of fd may have.
@@ -176,7 +176,7 @@ func TestWrongWireType(t *testing.T) {
 
 // TestWitnessWireType replays the input of KF-legacy-msg-wiretype (fixed in /repo): it must not come back.
 func TestWitnessWireType(t *testing.T) {
-	in, _ := hex.DecodeString("98008000") // field 19?? no: tag 0x18 padded = field 3, varint; value 0 padded
+	in, _ := hex.DecodeString("98008000") // padded tag 0x18 = field 3 as a varint, padded value 0; f3 is a message field
 	mt := genType(3, 0, "Message.ChildMessage")
 	m := mt.New()
 	err := proto.Unmarshal(in, m.Interface())
